@@ -176,6 +176,15 @@ where
     }
 }
 
+// ---- verification wrapper (pure addition; compiled only under the verif cfg)
+#[cfg(dandavison_delta_verif)]
+impl Alignment<'_> {
+    /// Cost stored in the final cell of the table.
+    pub fn verif_cost(&self) -> usize {
+        self.table[self.index(self.x.len(), self.y.len())].cost
+    }
+}
+
 #[cfg(test)]
 mod tests {
     use super::*;
